@@ -12,6 +12,7 @@ PUBLIC_BASES = {
     'qvector::rs_qvector::RSQVector': ['C05', 'C04'], 'bitvector::BitVector': ['C08', 'C04'],
     'bitvector::BitVectorMut': ['C08', 'C04'], 'bitvector::rs_narrow::RSNarrow': ['C06', 'C04'],
     'bitvector::rs_wide::RSWide': ['C06', 'C04'], 'darray::DArray': ['C07', 'C04'],
+    'qvector::QVectorBuilder': ['C13', 'C04'],
 }
 
 # exempt entry points, each with the reason (confirmed by reading)
@@ -26,6 +27,10 @@ EXEMPT = {
     'prefetch_info': 'position only feeds a prefetch hint (R-PF)',
     'prefetch_data': 'position only feeds a prefetch hint (R-PF)',
 }
+
+
+# a capacity hint may be absurdly large (allocation-failure class) but 0 is an ordinary value: only overflow is exempt there
+ABOVE_ONLY_EXEMPT = ('with_capacity',)
 
 
 def operand_locals(o):
@@ -123,10 +128,12 @@ def rule_O(FA):
         if unchecked_entry and not f['name'].endswith('_unchecked'):
             continue
         props = PUBLIC_BASES[base] + (['C10'] if unchecked_entry else [])
-        seeds = [i for i in range(2, f['argc'] + 1) if f['locals'][i] in INT]
+        first = 1 if (f['argc'] >= 1 and f['locals'][1] in INT) else 2     # associated functions have no receiver
+        seeds = [i for i in range(first, f['argc'] + 1) if f['locals'][i] in INT]
         if not seeds:
             continue
-        if f['name'] in EXEMPT:
+        above_exempt = f['name'] in ABOVE_ONLY_EXEMPT
+        if f['name'] in EXEMPT and not above_exempt:
             out.append(Inst('R-O', 'R-O|%s' % fn_key(f), 'note', f['span'], 'exempt: ' + EXEMPT[f['name']], props, nontrivial=False))
             continue
         for spec in FA.specs(f):
@@ -175,7 +182,7 @@ def rule_O(FA):
                             if not lb:
                                 continue
                             need = 'above'
-                        if unchecked_entry and need == 'above':
+                        if (unchecked_entry or above_exempt) and need == 'above':
                             continue
                         atoms = path_atoms(G, bi)
                         ok = (sanitized_up and need == 'above') or any((bounded_above if need == 'above' else bounded_below)(atoms, P) for P in Pterms)
@@ -236,8 +243,8 @@ def rule_O(FA):
 
 # ---------------------------------------------------------------- R-W
 
-TREE_BASES = {'quadwt::QWaveletTree': ['C01', 'C19'], 'quadwt::huffqwt::HuffQWaveletTree': ['C02', 'C19'],
-              'binwt::WaveletTree': ['C03', 'C19']}
+TREE_BASES = {'quadwt::QWaveletTree': ['C01', 'C19', 'C04'], 'quadwt::huffqwt::HuffQWaveletTree': ['C02', 'C19', 'C04'],
+              'binwt::WaveletTree': ['C03', 'C19', 'C04']}
 FIXED = ('u8', 'u16', 'u32', 'u64', 'usize', 'i8', 'i16', 'i32', 'i64', 'isize')
 
 
